@@ -70,6 +70,26 @@ def act(cls, extra_locals=None, params=None, **kw):
 DEG = {"activation_degree": "X Rat"}
 HEAP = {"activated": "Nat", "activation_degree": "X Rat", "index": "Nat", "activate": "List (X Rat × Nat)"}
 
+# ---------------------------------------------------------------- Function.parse (second half: postfix tokens -> tree)
+PARSE_PROFILE = {
+    "name": "Function_parse", "module": "fuzzylite.term", "object": "Function.parse", "file": "CodeFunctionParse",
+    "params": [("tbl", "Lang.Table"), ("formula", "String")],
+    "ignore_locals": ["factory"],
+    "locals": {"postfix": "List String", "stack": "Stack Py.Node", "token": "String", "element": "Option Lang.Elem",
+               "is_operand": "Bool", "node": "Py.Node"},
+    "ret": "Py.Node",
+    "record_fields": {("Py.Node", "left"): "Option Py.Node", ("Py.Node", "right"): "Option Py.Node"},
+    "externals": ELEM_EXT + [
+        ("cls.infix_to_postfix(_0)", "(Py.infixToPostfix tbl {0})", "List String", False),
+        ("_0.split()", "{0}", "List String", True, ["List String"]),
+        ("factory.copy(_0)", "(Py.copyElem tbl {0})", "Lang.Elem", False),
+        ("to_float(_0)", "(Py.float {0})", "X Rat", False),
+        ("Function.Node(_0)", "({{ element := some {0} }} : Py.Node)", "Py.Node", True, ["Lang.Elem"]),
+        ("Function.Node(constant=_0)", "({{ constant := {0} }} : Py.Node)", "Py.Node", True, ["X Rat"]),
+        ("Function.Node(variable=_0)", "({{ variable_ := {0} }} : Py.Node)", "Py.Node", True, ["String"]),
+    ],
+}
+
 PROFILES = [
     {
         "name": "Rule_parse", "module": "fuzzylite.rule", "object": "Rule.parse", "file": "CodeRule",
@@ -93,6 +113,7 @@ PROFILES = [
                                  ("deque()", "[]", "List String", True),
                                  ("' '.join(_0)", "(Py.joinSp {0})", "String", True)],
     },
+    PARSE_PROFILE,
     act("General"),
     act("First", dict(DEG, activated="Nat"), [("n", "Nat"), ("t", "X Rat")]),
     act("Last", dict(DEG, activated="Nat"), [("n", "Nat"), ("t", "X Rat")]),
@@ -105,5 +126,6 @@ PROFILES = [
 FILES = {
     "CodeRule": {"imports": ["FlVerif.Op.PyExt"]},
     "CodeFunction": {"imports": ["FlVerif.Op.PyExt"]},
+    "CodeFunctionParse": {"imports": ["FlVerif.Op.PyExtFunction"]},
     "CodeActivation": {"imports": ["FlVerif.Op.PyExtAct"]},
 }
